@@ -166,3 +166,28 @@ pub enum Overtaken {
     #[token(".")]
     Dot,
 }
+
+// States that differ ONLY in their end-of-input edge (after `x` the end of input leads to the accept of EndX, after `y` to
+// the accept of EndY; no byte edges, no accept of their own): a de-duplication key that leaves the end-of-input edge out
+// merges them and the wrong variant is reported at the end of the input (round-8 seed C01-m).
+#[derive(Logos)]
+pub enum EoiTwins {
+    #[regex("x$")]
+    EndX,
+    #[regex("y$")]
+    EndY,
+    #[regex("[a-w]+")]
+    Word,
+}
+
+// The same with a shared unconditional alternative: `;` / `,` always match as Punct, and as the higher-priority
+// LastSemi / LastComma only at the end of the input.
+#[derive(Logos)]
+pub enum EoiTwinsPunct {
+    #[regex(";$", priority = 5)]
+    LastSemi,
+    #[regex(",$", priority = 5)]
+    LastComma,
+    #[regex("[;,]", priority = 1)]
+    Punct,
+}
